@@ -51,7 +51,7 @@ class TxnGen:
 
 
 def random_call(rng, tg, weights=None):
-    ops = weights or [("add", 5), ("addition", 1), ("empty", 1), ("compactall", 3), ("compactrange", 2), ("autocompact", 1),
+    ops = weights or [("add", 5), ("addition", 1), ("overlap", 1), ("empty", 1), ("compactall", 3), ("compactrange", 2), ("autocompact", 1),
                       ("reload", 2), ("open", 1), ("clean", 1), ("closeopen", 1), ("read", 1)]
     tot = sum(w for _, w in ops)
     x = rng.random() * tot
@@ -63,6 +63,10 @@ def random_call(rng, tg, weights=None):
         return [tg.add()]
     if op == "addition":
         return [tg.addition()]
+    if op == "overlap":
+        c = tg.addition()
+        c["op"] = "overlap"
+        return [c]
     if op == "empty":
         return [tg.empty()]
     if op == "compactrange":
